@@ -1,4 +1,4 @@
-(* front end for the extracted directory walk (C06):  W <buflen> <hex block> -> OK n | CORRUPT | OOB | FUEL *)
+(* front end for the extracted directory walk and attribute value check (C06):  W <buflen> <hex block> -> OK n | CORRUPT | OOB | FUEL *)
 open Dirwalk_model
 let rec pos_of_int i = if i = 1 then XH else if i land 1 = 0 then XO (pos_of_int (i lsr 1)) else XI (pos_of_int (i lsr 1))
 let n_of_int i = if i = 0 then N0 else Npos (pos_of_int i)
@@ -15,5 +15,8 @@ let () =
       | WCorrupt -> print_endline "CORRUPT"
       | WOOB -> print_endline "OOB"
       | WFuel -> print_endline "FUEL"
-    end else print_endline "?"
+    end else if Array.length t = 4 && t.(0) = "E" then
+      (* E <block size> <e_value_offs> <e_value_size> -> 1 accepted | 0 PR_1_EA_BAD_VALUE *)
+      print_endline (if ea_value_ok (n_of_int (int_of_string t.(1))) (n_of_int (int_of_string t.(2))) (n_of_int (int_of_string t.(3))) then "1" else "0")
+    else print_endline "?"
   done with End_of_file -> ()
